@@ -52,6 +52,9 @@ var ModSeeds = []string{
 // retract block that carries a comment of its own, which is the rationale of the lines that have none.
 // The set/map model of C08 does not define how a block comment is inherited, so C08 leaves them out.
 var ModSeedsTypedOnly = []string{
+	// several comment paragraphs (two blank lines) above a line that is not the first of its block
+	"module example.com/m\n\n// top\nretract (\n\tv1.0.0\n\n\t// a\n\n\t// b\n\tv1.1.0\n)\n\n// Deprecated: old\nmodule2 x\n"[:0] + "module example.com/m\n\n// top\nretract (\n\tv1.0.0\n\n\t// a\n\n\t// b\n\tv1.1.0\n)\n",
+	"// one\nmodule (\n\n\t// Deprecated: two\n\n\t// three\n\texample.com/m\n)\n\nretract (\n\t// x\n\n\n\t// y\n\tv1.0.0 // z\n)\n",
 	// comment, blank line, directive inside blocks
 	"module example.com/m\n\n// block\nretract (\n\t// p1\n\n\t// p2\n\tv1.0.0\n\n\tv1.1.0 // s\n)\n\nrequire (\n\t// c1\n\n\ta.com/x v1.0.0\n)\n",
 	// a module block whose comment and whose line's comment both speak about deprecation
